@@ -628,6 +628,7 @@ class SimCondition:
         if not self._lock._is_owned():
             raise RuntimeError("cannot wait on un-acquired lock")
         w = {"n": False}
+        self.nwaits = getattr(self, "nwaits", 0) + 1
         self.waiters.append(w)
         saved = self._lock._release_save()
         try:
